@@ -125,6 +125,9 @@ def run(tier, seed):
                                   'scalar': True}, key=('lookup-scalar', name))
         T.run('grid_catalog', {'lattice': lat, 'probe': {'ulps': [1, 3], 'holes': True, 'beyond': True},
                                'in_place': bool(n % 2)}, key=('catalog', name))
+        if (max(c[0] for c in lat['cells']) - min(c[0] for c in lat['cells']) + 1) * \
+                (max(c[1] for c in lat['cells']) - min(c[1] for c in lat['cells']) + 1) <= 20000:
+            T.run('grid_cartesian', {'lattice': lat}, key=('cartesian', name))
         if n % 10 == 0:
             # events inside only (no ValueError path), and the empty catalog
             inside = [[o[0] + lat['dh'] / 2, o[1] + lat['dh'] / 2] for o, m in
